@@ -15,6 +15,7 @@ type Seed struct {
 	Msg    []byte
 	Fields []Field
 	Plain  bool // emit the message itself only (boundary-value seeds), no derived mutations
+	Delims []byte // separator characters of a textual part: added to the substitution alphabet, singly and doubled
 }
 
 var Sigma = []byte{0x00, 0x01, 0x02, 0x03, 0x05, 0x3f, 0x40, 0x7f, 0x80, 0xbf, 0xc0, 0xff}
@@ -129,6 +130,20 @@ func Gen(seeds []Seed, L int, bitflips, thorough bool, emit func(g string, in []
 				out := append([]byte{}, m...)
 				out[i] = c
 				emit("bytesubst", out)
+			}
+		}
+		for _, d := range s.Delims {
+			for i := 0; i < npos; i++ {
+				if m[i] != d {
+					out := append([]byte{}, m...)
+					out[i] = d
+					emit("delimiter", out)
+				}
+				if i+1 < npos && !(m[i] == d && m[i+1] == d) {
+					out := append([]byte{}, m...)
+					out[i], out[i+1] = d, d
+					emit("delimiter", out)
+				}
 			}
 		}
 		if bitflips {
